@@ -357,6 +357,12 @@ func aliasScenario(c *core.Ctx) {
 		}
 	})
 	ok := env.RunClients("alias")
+	if !ok {
+		// the client did not finish (deadlock or step cap, already recorded): nothing it reports from here on is
+		// meaningful, and closing the indexes under it would only add noise
+		c.TolerateLeak = true
+		return
+	}
 	s.Spawn("closer", func() {
 		if single != nil {
 			_ = single.Close()
